@@ -106,6 +106,19 @@ CHECKS["C19"] = dict(
         "generated xc_core files (p2m and pfn-only, LE x86_64 and BE s390x) through kdump_read and addrxlat_fulladdr_conv.",
    note=TB + "qsort is modelled by an insertion sort (trusted to sort). Page lists naming a frame twice have no consistent view and are outside the property.",
    technique="Lean 4 proof (run-length index = list index, for all lists) + differential correspondence", design="§6 C19")
+CHECKS["C09"] = dict(
+   text="Lean proofs over a model of addrxlat_op/do_op/addrxlat_fulladdr_conv (pass-through, the early exits, chain selection with the chain tables and "
+        "map_expect_as, the linear shortcut, fall-through on NOMETH/NODATA, the in-flight guard, the nesting limit, PTE reads recursing into op with the read "
+        "capabilities; walk and map search are the proved C02/C10 models): an address already in a usable space is passed through; the caller's operation "
+        "runs exactly once on success and never otherwise; the target lies in the declared capabilities; the result equals the first-match composition of "
+        "the methods the maps select along the chain; conversion has a single target and leaves the address unchanged on failure; in-flight triples on a "
+        "recursion path are distinct; termination by structural recursion on the nesting budget the (repaired) C code enforces, and the limit can only turn "
+        "an answer into NOTIMPL, never into a different answer. Tie: random systems (every method kind in every slot, random maps, self- and mutually "
+        "referential roots, every capability mask and source space) through the real addrxlat_op/fulladdr_conv with a counting callback and a depth "
+        "monitor, against the model and an independent first-match composition; chain tables regex-extracted from sys.c are cross-checked.",
+   note=TB + "The 4-slot read cache is treated as transparent for a deterministic get_page (observed, not proved here); custom methods, error messages, "
+        "re-entrant get_page callbacks and unaligned table reads are outside the model.",
+   technique="Lean 4 proof (op = first-match composition; exactly-once; bounded nesting) + differential correspondence", design="§6 C09")
 NOT_YET = {}
 
 def main():
